@@ -31,7 +31,8 @@ def sep_value(f, t):
 
 def innermost_loop(b, site):
     """(next call, body entry) of the innermost loop whose element reaches an operand of `site` and whose body contains it; None when there is none."""
-    ops = [t for a in site.args for t in subterms(a)]
+    from pvrules import seqeval as _sq
+    ops = [t for a in site.args for t in list(subterms(a)) + list(subterms(_sq._unwrap_payload(a, None, b)))]
     cands = []
     for c in b.calls_to("Iterator::next"):
         if c.result_term() not in ops:
@@ -113,7 +114,8 @@ def every_element(b, site, via=None):
     """The call `site` (a Hasher::write / Vec::push / write whose operand derives from a loop element) is passed on every path through the
     body of the innermost such loop that reaches the next iteration: no element is skipped.  None if no operand is a loop element.
     via: another call site whose operands identify the loop when the operand of `site` is a local built up in the loop body."""
-    ops = [t for a in (via or site).args for t in subterms(a)]
+    from pvrules import seqeval as _sq
+    ops = [t for a in (via or site).args for t in list(subterms(a)) + list(subterms(_sq._unwrap_payload(a, None, b)))]
     cands = []
     for c in b.calls_to("Iterator::next"):
         if c.result_term() not in ops:
